@@ -43,6 +43,61 @@ fn c06_search_real_memmem_8() {
     search_body::<8>();
 }
 
+/// Same on every input of up to 5 / 6 bytes: small enough to reach a verdict quickly for ANY implementation of
+/// the search (the shortest inputs on which a partial pattern directly precedes the pattern have 5 bytes).
+#[kani::proof]
+#[kani::unwind(9)]
+#[kani::stub(core::arch::x86_64::__cpuid_count, cpuid_count_stub)]
+#[kani::stub(core::arch::x86_64::__cpuid, cpuid_stub)]
+fn c06_search_real_5() {
+    search_body::<5>();
+}
+
+#[kani::proof]
+#[kani::unwind(10)]
+#[kani::stub(core::arch::x86_64::__cpuid_count, cpuid_count_stub)]
+#[kani::stub(core::arch::x86_64::__cpuid, cpuid_stub)]
+fn c06_search_real_6() {
+    search_body::<6>();
+}
+
+/// The real search on literal junk that ends in a partial pattern (or repeats pattern bytes) directly in front of
+/// the pattern, followed by symbolic bytes: the reported offset is the junk length.
+#[kani::proof]
+#[kani::unwind(14)]
+#[kani::stub(core::arch::x86_64::__cpuid_count, cpuid_count_stub)]
+#[kani::stub(core::arch::x86_64::__cpuid, cpuid_stub)]
+fn c06_search_real_partial_prefixes() {
+    const JUNK: [&[u8]; 8] = [b"D", b"DL", b"DLT", b"DD", b"DLD", b"DLTD", b"\x01DLT", b"xDLTDL"];
+    let t: [u8; 2] = kani::any();
+    let mut k = 0;
+    while k < JUNK.len() {
+        let j = JUNK[k];
+        let mut buf = [0u8; 12];
+        let mut n = 0;
+        while n < j.len() {
+            buf[n] = j[n];
+            n += 1;
+        }
+        buf[n] = 0x44;
+        buf[n + 1] = 0x4C;
+        buf[n + 2] = 0x54;
+        buf[n + 3] = 0x01;
+        buf[n + 4] = t[0];
+        buf[n + 5] = t[1];
+        let input = &buf[..n + 6];
+        match forward_to_next_storage_header(input) {
+            Some((skipped, rest)) => {
+                assert!(skipped as usize == j.len(), "offset is not that of the first occurrence (partial pattern in front)");
+                assert!(rest.len() == 6 && rest.as_ptr() as usize == input.as_ptr() as usize + j.len());
+            }
+            None => assert!(false, "absence reported although the pattern occurs"),
+        }
+        k += 1;
+    }
+    kani::cover!(true);
+}
+
 // ---- parsing with junk in front of the storage header -------------------------
 use crate::c01::*;
 use crate::refcodec::*;
@@ -98,6 +153,40 @@ c06_junk!(c06_junk_3, [0x01u8, 0x00, 0xFF]);
 c06_junk!(c06_junk_partial_d, [0x44u8]);
 c06_junk!(c06_junk_partial_dlt, [0x00u8, 0x44, 0x4C, 0x54]);
 c06_junk!(c06_junk_partial_ddl, [0x44u8, 0x4C, 0x44, 0x4C, 0x54, 0x00, 0x44]);
+
+/// junk ++ message ++ tail with a filter that drops the message: the filtered-out marker carries the payload
+/// length and the remainder is still the tail (the skipped junk, the storage header and the declared length
+/// are all accounted for - the filter never changes where the next message is looked for).
+fn junk_then_filtered_message(junk: &[u8], fm: crate::c04::FilterMode) {
+    let bt = build(&S_ST_MIN, 2, None, None);
+    let plain = bt.buf.slice();
+    let mut j = Buf::<MAXMSG>::new();
+    j.put_bytes(junk, junk.len());
+    j.put_bytes(plain, plain.len());
+    let filter = crate::c04::make_filter(fm);
+    let b = dlt_message(j.slice(), filter.as_ref(), true);
+    match &b {
+        Ok((rb, ParsedMessage::FilteredOut(n))) => {
+            assert!(*n == bt.payload_len, "filtered-out marker does not carry the payload length");
+            assert!(rb.len() == 2, "junk in front of the storage header changes the remainder of a filtered-out message");
+            assert!(rb.as_ptr() as usize == j.slice().as_ptr() as usize + junk.len() + bt.msg_end, "remainder start");
+            kani::cover!(true, "filtered out behind junk");
+        }
+        _ => assert!(false, "message behind junk not filtered out"),
+    }
+    std::mem::forget(b);
+    std::mem::forget(filter);
+}
+
+#[kani::proof]
+#[kani::unwind(40)]
+#[kani::stub(std::fmt::format, crate::models::fmt_format_stub)]
+#[kani::stub(core::str::from_utf8, crate::models::from_utf8_stub)]
+#[kani::stub(std::hash::RandomState::new, crate::c09::random_state_stub)]
+#[kani::stub(dlt_core::parse::forward_to_next_storage_header, crate::models::forward_stub)]
+fn c06_junk_3_filtered_out() {
+    junk_then_filtered_message(&[0x01u8, 0x00, 0xFF], crate::c04::FilterMode::DropAll);
+}
 
 /// msg1 ++ junk ++ msg2: both messages are recovered, in order.
 #[kani::proof]
